@@ -631,6 +631,8 @@ func (s *Session) routingKeyInfo(ctx context.Context, stmt string) (*routingKeyI
 	if conn == nil {
 		// TODO: better error?
 		inflight.err = errors.New("gocql: unable to fetch prepared info: no connection available")
+		// don't cache this error
+		s.routingKeyInfoCache.Remove(stmt)
 		return nil, inflight.err
 	}
 
